@@ -38,7 +38,9 @@ def run_checks(patch):
         from concurrent.futures import ThreadPoolExecutor
         with ThreadPoolExecutor(8) as ex:
             for p, r in ex.map(one, BUILT):
-                if r.returncode != 0:
+                if r.returncode == 2:
+                    print("   (exit 2 from", p, "-- not counted as a detection)")
+                if r.returncode == 1:
                     lines = [l.replace(s + "/", "") for l in r.stdout.splitlines()
                              if " -- " in l and "[" in l]
                     hits[p] = {"exit": r.returncode, "reports": [l[:300] for l in lines[:4]]}
